@@ -105,7 +105,7 @@ def gen(rng, tier, shape=None):
     v = A.rand_val(rng, depth)
     if not isinstance(v, (list, tuple, dict)) and rng.random() < 0.85:
         v = [A.rand_val(rng, depth - 1) for _ in range(rng.randint(1, 4))]
-    e = A.mk_expr(rng, v, ctr, p_unm=0.0, p_star=0.0, top=True)
+    e = A.mk_expr(rng, v, ctr, p_unm=0.0, p_hand=rng.choice([0.3, 0.6, 0.9]), p_star=0.0, top=True)
     for _ in range(4):
         w = wrap(rng, copy.deepcopy(e), rng.choice([0.15, 0.3, 0.5]), top=rng.random() < 0.85)
         if has_snap(w):
@@ -118,7 +118,7 @@ def gen(rng, tier, shape=None):
         flags = []
     elif r < 0.55:
         flags = ["create", "fix"]
-    elif r < 0.7:
+    elif r < 0.8:
         flags = ["create", "fix", "trim", "update"]
     else:
         flags = sorted(c for c in common.CATS if rng.random() < 0.5)
@@ -162,15 +162,76 @@ def model_lines(case):
     return [sx(["assign", ["flags"], A.expr_sx(to_assign_expr(e)), A.val_sx(case["new"])])]
 
 
-def one_run(src, flags):
+def node_paths(src):
+    """position -> path of child indices, from the outermost snapshot(...) call (the root container)"""
+    tree = ast.parse(src)
+    calls = [n for n in ast.walk(tree) if isinstance(n, ast.Call) and isinstance(n.func, ast.Name) and n.func.id == "snapshot"]
+    calls.sort(key=lambda n: (n.lineno, n.col_offset))
+    out = {}
+
+    def kids(n):
+        if isinstance(n, (ast.List, ast.Tuple)):
+            return list(n.elts)
+        if isinstance(n, ast.Dict):
+            return list(n.values)
+        if isinstance(n, ast.Call):
+            return list(n.args) + [k.value for k in n.keywords]
+        return []
+
+    def walk(n, path):
+        out[(type(n).__name__, n.lineno, n.col_offset, n.end_lineno, n.end_col_offset)] = path
+        for i, k in enumerate(kids(n)):
+            walk(k, path + [i])
+    if calls:
+        walk(calls[0], [])
+    return out
+
+
+def spy_edits(src, spy):
+    """-> (edits handed to apply_all, edits it went on with) as lists of [kind, *path]; None if a node is unknown"""
+    paths = node_paths(src)
+    given, applied = [], []
+    kind = {"Replace": "r", "Delete": "d", "ListInsert": "i", "DictInsert": "i", "CallArg": "i"}
+    for name, _flag, pos in spy["given"]:
+        p = paths.get(tuple(pos))
+        if p is None or name not in kind:
+            return None, None
+        given.append([kind[name]] + p)
+    for pos in spy["replaced"]:
+        p = paths.get(tuple(pos))
+        if p is None:
+            return None, None
+        applied.append(["r"] + p)
+    for q in spy["seq"]:
+        p = paths.get(tuple(q["parent"]))
+        if p is None:
+            return None, None
+        applied += [["d"] + p + [i] for i in q["deleted"]]
+        if q["insert_at"]:
+            applied.append(["i"] + p)
+    return given, applied
+
+
+def model_lines_obs(case, obs):
+    """second line: the changes the real run handed to apply_all, for Model/Nest.lean (`survivors`)"""
+    lines = model_lines(case)
+    a = obs["first"]
+    if a.get("spied") and a.get("given") is not None:
+        lines.append(sx(["nest"] + a["given"]))
+    return lines
+
+
+def one_run(src, flags, spy=False):
     from .. import impl_inline
-    r = impl_inline.run_program({"test_case.py": src}, flags, flags)
+    r = impl_inline.run_program({"test_case.py": src}, flags, flags, spy=spy)
     after = r["files_after"].get("test_case.py", "")
     out = {"R": r["R"][0][1] if r["R"] else None, "cats": sorted({c for s in r["sites"] for c in s["cats"]}),
            "errors": [r["import_error"], r["apply_error"], r["collect_errors"]], "after": after, "raised": [t["raised"] for t in r["tests"]]}
+    if spy and r.get("spy"):
+        out["given"], out["applied"] = spy_edits(src, r["spy"])
+        out["spied"] = True
     try:
         calls = impl_inline.snapshot_args(after)
-        outer = [c for c in calls if c[0] == min(x[0] for x in calls)]
         out["arg"] = calls[0][2] if calls else None
         ast.parse(after)
     except Exception as ex:  # noqa: BLE001
@@ -182,7 +243,7 @@ def one_run(src, flags):
 def run_impl(case):
     arg0 = render(case["expr"])
     src = program(arg0, case)
-    a = one_run(src, case["flags"])
+    a = one_run(src, case["flags"], spy=True)
     obs = {"arg0": arg0, "first": a}
     if a.get("arg") is not None and not any(a["errors"][:2]) and not a["errors"][2]:
         g: dict = {}
@@ -198,7 +259,29 @@ def run_impl(case):
     return obs
 
 
+def compare_survivors(case, obs, model_out):
+    a = obs["first"]
+    if not a.get("spied"):
+        return []
+    if a.get("given") is None:
+        return [("survivors", ["C18"], "a change refers to a node that is not part of the outer snapshot call")]
+    if len(model_out) < 2:
+        return [("protocol", ["C18"], "no answer for the nest line")]
+    o = common.sx_parse(model_out[1])
+    if o == ["bad-op"]:
+        return [("protocol", ["C18"], "bad-op")]
+    norm = lambda es: sorted({tuple(str(x) for x in e) for e in es})
+    m, i = norm(o[1:]), norm(a["applied"])
+    if m != i:
+        return [("survivors", ["C18"], f"{case['new']!r} == snapshot({obs['arg0']}) flags {case['flags']}: changes {a['given']}; model goes on with {m}, apply_all with {i}")]
+    return []
+
+
 def compare(case, obs, model_out):
+    return compare_tree(case, obs, model_out) + compare_survivors(case, obs, model_out)
+
+
+def compare_tree(case, obs, model_out):
     e = case["expr"]
     if case["flags"] or has_empty(e) or e["t"] == "snap":
         return []
@@ -253,6 +336,10 @@ def signature(case):
 
 
 def histogram(case, obs, hist):
+    a_ = obs["first"]
+    if a_.get("spied") and a_.get("given") is not None:
+        dropped = len({tuple(e) for e in a_["given"]}) - len({tuple(e) for e in a_["applied"]})
+        hist["apply_all:dropped>0" if dropped > 0 else "apply_all:dropped=0"] = hist.get("apply_all:dropped>0" if dropped > 0 else "apply_all:dropped=0", 0) + 1
     hist["flags:" + ",".join(case["flags"])] = hist.get("flags:" + ",".join(case["flags"]), 0) + 1
     hist["loop:%d" % case["loop"]] = hist.get("loop:%d" % case["loop"], 0) + 1
     for c in obs["first"]["cats"]:
